@@ -8,6 +8,10 @@ pub mod refimpl;
 
 use engine::{Ctx, Tier};
 
+/// C07: counting allocator (thread-local live / peak byte counters, see props/c07/alloc.rs)
+#[global_allocator]
+static GLOBAL: props::c07::alloc::Counting = props::c07::alloc::Counting;
+
 fn main() {
     let args: Vec<String> = std::env::args().collect();
     if args.len() < 3 || args[1] != "run" {
